@@ -286,6 +286,10 @@ def check_transport_id(prog, run):
     cases = [("format flag without session id", {"protocol_id": iscsi, "tpid_format": 1, "iscsi_name": "iqn.a"}, "ValueError"),
              ("session id without format flag", {"protocol_id": iscsi, "iscsi_name": "iqn.a", "iscsi_initiator_session_id": "0123"}, "ValueError"),
              ("session id with format flag 0", {"protocol_id": iscsi, "tpid_format": 0, "iscsi_name": "iqn.a", "iscsi_initiator_session_id": "0123"}, "ValueError"),
+             # (formats 10b / 11b are reserved: a TransportID that claims one and has no session id is as inconsistent as 01b)
+             ("format 10b without session id", {"protocol_id": iscsi, "tpid_format": 2, "iscsi_name": "iqn.a"}, "ValueError"),
+             ("format 11b without session id", {"protocol_id": iscsi, "tpid_format": 3, "iscsi_name": "iqn.a"}, "ValueError"),
+             ("format flag True without session id", {"protocol_id": iscsi, "tpid_format": True, "iscsi_name": "iqn.a"}, "ValueError"),
              ("consistent, format 0", {"protocol_id": iscsi, "tpid_format": 0, "iscsi_name": "iqn.a"}, None),
              ("consistent, format 1", {"protocol_id": iscsi, "tpid_format": 1, "iscsi_name": "iqn.a", "iscsi_initiator_session_id": "0123"}, None)]
     fspec = reffacade.FACADE["persistentreserveout"]
